@@ -54,30 +54,48 @@ RING = ("A bounded native ring (real code, oracle written from the statement, se
 def _claim(pid, level, technique, text, note):
     CLAIMED[pid] = dict(level=level, technique=technique, text=text, note=TRUST_COMMON + note)
 
-_claim("C02", "exploration",
-       "bounded native enumeration of the exact gamete law with scripted generators (stand-in); the deterministic reduction is carried by the C01 kernel contract and the C11 map-function lemmas",
-       "The distributional statement is reduced to deterministic facts: switch between j-1 and j iff the draw is below xoprob[j] (kernel contract, proved under C01), "
-       "Haldane composition and map-function range (lemmas proved under C11). What is checked here is bounded: the exact outcome law of the real kernels and of all "
-       "seven mate() protocols is enumerated with scripted generators for p<=4 markers and compared with the law written from the statement; interp_xoprob is "
-       "compared with mapfn(distance to previous marker) on seeded maps. Convergence itself (law of large numbers, i.i.d. draws) is an assumption.",
+_claim("C02", "other",
+       "deductive reduction: kernel contract (A2 loop invariants, z3) + gdist1g loop proof + probability-algebra and Haldane lemmas + interp_xoprob data flow (A1); exact gamete law enumerated by scripted generators as bounded stand-in; i.i.d. draws and LLN assumed",
+       "The distributional statement is reduced to deterministic obligations that are proved for all sizes: the copy switches between j-1 and j iff the draw is below "
+       "xoprob[j] and every draw is used once (both kernels); gdist1g returns +inf exactly at chromosome starts, so xoprob there is mapfn(+inf) = 1/2 (checked natively); "
+       "interp_xoprob stores mapfn(gdist1g(chr, interp_genpos(chr, phys))); Haldane composition, parity composition of independent switches and the fixed point 1/2 are "
+       "lemmas. Convergence itself needs i.i.d. U[0,1) draws and the law of large numbers, which are assumptions - hence level 'other', not proof. Bounded: the exact "
+       "outcome law of the real kernels and of all seven mate() protocols is enumerated with scripted generators for p<=4 markers.",
        "i.i.d. U[0,1) draws and the law of large numbers are assumed, not verified.")
-_claim("C04", "exploration", "bounded native ring (deductive units for the linear forms are planned; none claimed yet)",
-       "Bounded: predictions, variances, allele summaries and rrBLUP clauses are compared with loop oracles on seeded and exhaustive small cases incl. >127 taxa "
-       "and bad copy numbers. Two genuine defects are recorded as known findings, one was repaired.", "rrBLUP convergence is outside the reach of contracts (iterative floating point).")
-_claim("C05", "exploration", "bounded native ring over all ~60 problem classes (no deductive unit claimed yet)",
-       "Bounded: latent functions vs independent definitions, encoding agreement, order/scale invariance, evalfn == weights x transformations, factory data, "
-       "for n<=8 candidates. Three genuine defects repaired, five recorded.", "")
-_claim("C06", "exploration", "bounded native ring (tiny optimiser budgets, exhaustive small subset problems)",
-       "Bounded: every optimiser class is run on small problems with trap objectives; decision-space membership, exact re-evaluation, non-domination, problem "
-       "immutability, brute-force optimum of the sorting optimiser and exchange-local optimality of the hill-climbers. pymoo internals are an assumed contract.",
+_claim("C04", "other",
+       "bounded symbolic execution (mode B: the real gebv/gegv/gebv_numpy and allele-summary methods on symbolic genotypes, effects and intercepts, z3) + native ring",
+       "Not a proof: gebv/gegv are proved equal to intercept contrast + dosage x additive effects (+ heterozygosity x dominance effects) with labels carried and "
+       "independent of the input form (phased / unphased / raw) for ALL values at shapes <= 2 taxa x 2 markers x 2 traits (thorough 3 taxa); favourable / deleterious / "
+       "neutral allele counts, availability, fixation and polymorphism flags equal their definitions for all allele patterns and effect signs at the same shapes. "
+       "Variances, larger shapes, >127 taxa, bad copy numbers and rrBLUP clauses are the bounded native ring. Two genuine defects are recorded as known findings, one was repaired.",
+       "rrBLUP convergence is outside the reach of contracts (iterative floating point). The scaled output matrix is intercepted at from_numpy (its round trip is C15).")
+_claim("C05", "other",
+       "bounded symbolic execution (mode B) of the real latentfn of seven linear criterion families in all four encodings + data-flow contract of SelectionProblem.evalfn (A1, opaque arrays, z3) + native ring over all ~60 problem classes",
+       "Not a proof: for EBV, GEBV, generalized-weighted GEBV, EMBV, OHV, Random and usefulness-criterion problems the real latent function is proved equal to its definition "
+       "in subset, real, integer and binary encodings, order-invariant and scale-equivariant, for ALL breeding-value / weight values at n<=3 candidates; evalfn is proved to "
+       "hand exactly obj_wt * obj_trans(latentfn(x)) and the constraint counterparts for arbitrary transformations. Every other family, factory data and larger n are the "
+       "bounded native ring. Three genuine defects repaired, five recorded.", "")
+_claim("C06", "other",
+       "bounded symbolic execution (mode B) of the real sorting optimiser on symbolic separable objectives + rounding lemma (z3) + native ring with tiny optimiser budgets",
+       "Not a proof: SortingSubsetOptimizationAlgorithm.minimize is executed on symbolic per-candidate scores (n<=4, k<=3, every ordering explored): the returned members are "
+       "distinct, are the k best, the reported objective values are the true values of the returned decision, and the result equals the brute-force optimum. Every other "
+       "optimiser class is covered only by the bounded native ring (decision-space membership, exact re-evaluation, non-domination, problem immutability, exchange-local "
+       "optimality of the hill-climbers). pymoo internals are an assumed contract.",
        "pymoo 0.6.2 behaviour is assumed; OS-entropy seeding is pinned in the ring (see C08 findings).")
-_claim("C07", "exploration", "bounded native ring",
-       "Bounded: sample_xconfig of every configuration class (shape, membership, multiplicities, exchange-local optimality by brute force), cross-map index "
-       "generators exhaustively, truncation exactness and equivariance with the exact optimiser, select() data flow for 6 protocol families x 4 encodings.", "")
-_claim("C08", "exploration", "bounded native ring of seeded programs and explicit-generator isolation, with a guarded twin for the known pymoo-entropy defect",
-       "Bounded: random programs of stochastic API calls are re-run after re-seeding under different interpreter histories and compared bit for bit; with an explicit "
-       "generator the result must depend only on its state and the global streams must be untouched. Five genuine defect classes are recorded as known findings; "
-       "the guarded twin (pymoo's OS entropy pinned) must pass.", "Determinism of numpy/python generators given their state is assumed.")
+_claim("C07", "other",
+       "bounded symbolic execution (mode B) of the real select() of the four single-encoding protocol base classes with stub problem / optimiser / transformation objects (z3) + native ring",
+       "Not a proof: for Subset / Real / Integer / Binary SelectionProtocol.select the configuration returned is proved to be built from exactly the solution that the "
+       "declared preference (ndset_wt * ndset_trans) ranks best, for ALL symbolic objective values of up to 3 candidate solutions, with the protocol's ncross / nparent / "
+       "nmating / nprogeny handed through unchanged. sample_xconfig of every configuration class, cross-map index generators, truncation exactness and equivariance are the "
+       "bounded native ring.", "")
+_claim("C08", "other",
+       "frame contracts read from the current AST (DrawsOnlyFrom(designated generator) for 29 stochastic functions; trace contract of prng.seed/spawn by proxy execution with recording modules) + native ring of seeded programs and explicit-generator isolation",
+       "Not a proof of reproducibility (numpy/python generator determinism is assumed): each stochastic function under contract is shown to reference no entropy source but "
+       "its designated generator (module streams, global_prng outside the rng=None default, generator constructors, clock / OS entropy are frame violations; syntactic, per "
+       "function); prng.seed is shown by proxy execution to seed the python stream with s first, to re-seed numpy's global stream through its seed() entry point with a value "
+       "drawn from the freshly seeded python stream, and to touch nothing else; spawn seeds new generators from the python stream only. Random programs re-run after re-seeding "
+       "under different histories and the explicit-generator isolation are the bounded native ring; five genuine defect classes are recorded as known findings, with a guarded "
+       "twin (pymoo's OS entropy pinned) that must pass.", "Determinism of numpy/python generators given their state is assumed; the frame analysis is syntactic and per function.")
 _claim("C09", "other",
        "bounded symbolic execution of the real methods (mode B: real numpy on symbolic scalars, all allele patterns for small shapes, z3) + exhaustive float enumeration over copy numbers (mode F) + native ring",
        "Not a proof: every statistic of both genotype classes is proved equal to its textbook definition for ALL allele patterns but only for shapes up to 3 taxa x 3 "
@@ -88,18 +106,25 @@ _claim("C10", "other",
        "The induction step of the history property is proved: per-locus bracket ploidy*u*I_low <= u*d <= ploidy*u*I_up, monotone tightening when availability shrinks, "
        "and closure (the meiosis contract of C01 and the TAKE position map of C03 cannot regenerate a lost allele). That usl/lsl compute exactly that indicator sum is "
        "bounded-symbolic (all values, shapes <= 3x2x2), and float exactness of p is the C09 enumeration; so the whole is not claimed as proof.", "")
-_claim("C12", "exploration", "bounded native ring against exhaustive gamete enumeration",
-       "Bounded: all 2^p haplotypes (p<=6) are enumerated with exact Haldane probabilities through the literal cross scheme and compared with the variance / "
-       "covariance matrices, for several selfing depths and chunk sizes; symmetry, zero for identical parents, chunk invariance, permutation equivariance, usefulness "
-       "criteria. Two defect families are recorded as known findings.", "The general theorem (formula == gamete variance for all p) is not formalised.")
+_claim("C12", "other",
+       "deductive lemmas (z3, real arithmetic) on the formulas obtained by running the real rprob_filial / cov_D1s / cov_D2s on symbolic reals + bounded symbolic execution (mode B) of the real two-way from_algmod + native ring against exhaustive gamete enumeration",
+       "Not a proof: the closed form of rprob_filial is proved to satisfy the selfing recurrence r_{k+1} = r + (1/2)(1-2r) r_k with r_1 = r and the fixed point at infinity, "
+       "and D1 = 1-2r_k, D2 = 1-4r+4r r_k for all r in [0,1/2] (pow laws as explicit instances); the real two-way genetic and genic from_algmod are executed on symbolic "
+       "haplotypes, effects and genetic positions (<=3 taxa, <=3 markers on 1-2 chromosomes, <=2 traits, nself 0/1/2/inf, chunk 1/2/None) and proved equal to the blocked "
+       "double sum with the real mapfn / cov_D1s at the symbolic distance, symmetric, zero for identical parents, chunk-invariant. That this formula equals the enumerated "
+       "gamete variance, the three-/four-way and dihybrid classes, and the usefulness criteria are the bounded native ring (all 2^p haplotypes, p<=6). Two defect families are known findings.",
+       "The general theorem (formula == gamete variance for all p) is not formalised; exp / pow are uninterpreted with trusted law instances.")
 _claim("C13", "other",
        "bounded symbolic execution (mode B) of the real from_gmat formulas against independent definitions + deductive identities (z3) + native ring",
        "Molecular coancestry == twice the mean IBS probability, VanRaden / generalized-weighted formulas, symmetry and label carry-over are proved for all allele "
        "patterns, reference frequencies and weights for shapes <= 3x3 (bounded in shape); the per-locus IBS identity and positive semidefiniteness of Gram matrices "
        "are proved as lemmas. Larger shapes, summaries and int8 accumulation limits are covered by the bounded native ring.", "")
-_claim("C14", "exploration", "bounded native ring with recording/scripted generators",
-       "Bounded: record structure and labels, zero-noise truth, additive noise structure by classifying recorded draws, heritability ratio, mean-phenotype "
-       "alignment/invariance/missing taxa. Statistical convergence is an assumption.", "i.i.d. normal draws and the law of large numbers are assumed.")
+_claim("C14", "other",
+       "deductive lemma (z3) on the formulas obtained by running the real set_h2 / set_H2 on symbolic variances + native ring with recording/scripted generators",
+       "Not a proof: set_h2 / set_H2 (extracted from the current source, genomic model stubbed by symbolic variances) are proved to fix var_err so that "
+       "var/(var+var_err) equals the target for all 0 < h2 <= 1 and var > 0, per trait. Record structure and labels, zero-noise truth, additive noise structure by "
+       "classifying recorded draws, mean-phenotype alignment / invariance / missing taxa are the bounded native ring. Statistical convergence is an assumption.",
+       "i.i.d. normal draws and the law of large numbers are assumed.")
 _claim("C15", "proof",
        "deductive, proxy execution (mode A1): the real select/delete/insert/adjoin_taxa run on opaque symbolic arrays and must hand from_numpy exactly OP(unscale()) with labels moved by the same OP; round trip and summaries bounded-symbolic (mode B); native ring",
        "Proved for all shapes and contents (3 classes x 6 operation forms x 3 label configurations): the structural operation passes OP(unscaled values) and OP(labels) to "
@@ -111,12 +136,18 @@ _claim("C16", "other",
        "Last-write-wins, nothing stale, other paths untouched are proved for the real write routine for dictionaries of <= 3 keys (arrays, None, nested) under every "
        "pre-state of the touched paths, contents arbitrary; copy/deepcopy field equality and non-sharing for 11 matrix classes are proved under C03. HDF5/pandas/CSV/VCF "
        "round trips and write sequences are the bounded native ring. Two genuine defects repaired, seven recorded.", "h5py modelled as a finite path->value map; pandas/cyvcf2 internals outside the contracts.")
-_claim("C17", "exploration", "bounded native ring with scripted offsets and exact rational counts",
-       "Bounded: SUS counts floor/ceil with exact fractions at scripted float-edge offsets, tiled_choice balance, axis_shuffle slices, outcross_shuffle multiset / "
-       "monotone / brute-force local optimality, same-state repeatability. Two genuine SUS defects repaired, float-rounding and edge-argument classes recorded.", "")
-_claim("C18", "exploration", "bounded native ring incl. exhaustive small marker layouts and NaN-poisoned allocation",
-       "Bounded: apportionment, bins, run-length bounds on exhaustive small grids and seeded layouts; block values conserve additive value; OHV/OPV vs brute force and "
-       "the doubled-haploid bound. Four genuine defect classes of the partition routines are recorded as known findings.", "")
+_claim("C17", "other",
+       "deductive lemmas (z3, real arithmetic) for the pointer lattice of stochastic universal sampling and the tiling arithmetic + native ring with scripted offsets and exact rational counts",
+       "Not a proof of the code: the floor/ceil count law, 'k pointers on the wheel', 'zero weight owns an empty interval' and the q-or-q+1 tiling law are proved as lemmas in "
+       "real/integer arithmetic over the specification; that the real loops realise this specification (and their float behaviour) is the bounded native ring: SUS counts with "
+       "exact fractions at scripted float-edge offsets, tiled_choice balance, axis_shuffle slices, outcross_shuffle multiset / monotone / brute-force local optimality. "
+       "Two genuine SUS defects repaired, float-rounding and edge-argument classes recorded.", "")
+_claim("C18", "other",
+       "deductive: loop-invariant VCs generated from the real haplobin_bounds source (AST loop cutting, symbolic list model, z3) + OHV/OPV bound lemmas + native ring incl. exhaustive small marker layouts",
+       "haplobin_bounds is proved for label arrays of every length: starts/stops chain from 0 to n, lengths are stops - starts >= 1, labels are constant inside each block and "
+       "change across each boundary (unbounded, loop invariant over python lists of symbolic length). The OHV/OPV doubled-haploid bound is a lemma over the specification. "
+       "Apportionment (haplobin), block values, OHV/OPV vs brute force are the bounded native ring, so the property as a whole is not claimed as proof. Four genuine defect "
+       "classes of the partition routines are recorded as known findings.", "python list append / numpy.int_ of a list are modelled (pyvc/loopcut.py SymList).")
 _claim("C19", "other",
        "bounded symbolic execution (mode B) of the real Pareto filter and dominance predicate for all real coordinates (npt<=4, nobj<=3) + native ring incl. exhaustive grids",
        "For every real-valued point set of up to 4 points x 2 objectives (3 objectives up to 3 points; thorough 5 points) and every sign vector the real filter is proved "
